@@ -42,7 +42,9 @@ def rule_r1_r2(chk, db):
         raise AnchorMissing("frame buffer not found")
     buf_local = buf
     buf = writes.move_aliases(b, buf)        # the buffer may travel through a wrapper (`FrameBuf(buf)`) between the stages
-    ev = writes.buffer_events(b, buf, db)
+    # closures handed to iterator adaptors (`headers.iter().try_for_each(|h| h.put_into(&mut buf))`) and methods that take the buffer are
+    # expanded into their own appends
+    ev = writes.buffer_events(b, buf, db, prim=set(BE_PUTS) | {"put", "put_slice", "extend_from_slice", "push", "put_u64", "put_i32", "put_bytes"})
     desc = writes.describe(ev)
     shape = [(e["short"], bool(e["in_loop"])) for e in ev]
     want = [("put_u32", False), ("put_u32", False), ("put_u32", False), ("put_u8", True), ("put", True), ("put_u8", True), ("put_u16", True), ("put", True),
@@ -85,10 +87,13 @@ def rule_r1_r2(chk, db):
                     (order[ev[7]["bi"]] < order[hashes[1][0]]), "R1", "crc-positions", b.loc(hashes[0][0]), "the CRCs are not computed at the specified points", nontrivial=False)
     # header items
     nm_len, nm, tag, v_len, v = ev[3], ev[4], ev[5], ev[6], ev[7]
-    chk.verdict(tag["consts"][:1] == [7], "R1", "value-type-7", b.loc(tag["bi"]), "header value type byte is %s (7 = string)" % tag["consts"][:1])
+    tagc = tag["consts"][:1]
+    if tagc and isinstance(tagc[0], tuple) and tagc[0][0] == "item":
+        tagc = [flow.const_int_eval(tag["body"], {"c": "item", "def": tagc[0][1]})]        # a named constant (`HEADER_VALUE_TYPE_STRING`)
+    chk.verdict(tagc == [7], "R1", "value-type-7", tag["body"].loc(tag["bi"]), "header value type byte is %s (7 = string)" % tagc)
 
     def hdr_field(e, f, length):
-        sl = flow.backward(b, e["args"][0], at=e["bi"])
+        sl = flow.backward(e["body"], e["args"][0], at=e["bi"])
         fs = fields_of(sl, "Header")
         has_len = any(short(callee_def(t)) == "len" for _, t, _ in sl.calls)
         lossy = [short(callee_def(t)) for _, t, _ in sl.calls if short(callee_def(t)) in ("min", "clamp", "truncate", "split_to", "slice", "index", "get", "saturating_sub", "wrapping_sub")]
@@ -99,18 +104,25 @@ def rule_r1_r2(chk, db):
     s_pay = flow.backward(b, ev[8]["args"][0], at=ev[8]["bi"])
     chk.verdict(fields_of(s_pay, "Message") == {"payload"}, "R1", "payload-bytes", b.loc(ev[8]["bi"]), "the payload item is not Message.payload")
     # narrowing through TryFrom + `?`, never `as`
-    tf = [(bi, t) for bi, t in b.calls() if callee_def(t) == "core::convert::TryFrom::try_from"]
+    tf_bodies = []
+    for e_ in ev:
+        if not any(e_["body"] is x for x in tf_bodies):
+            tf_bodies.append(e_["body"])
+    if not any(b is x for x in tf_bodies):
+        tf_bodies.append(b)
     ok_tf = 0
-    for bi, t in tf:
-        o = flow.outcomes_of_call(b, bi)
-        if o.get("Break") or o.get("Err"):
-            ok_tf += 1
+    for xb in tf_bodies:
+        for bi, t in xb.calls():
+            if callee_def(t) == "core::convert::TryFrom::try_from":
+                o = flow.outcomes_of_call(xb, bi)
+                if o.get("Break") or o.get("Err"):
+                    ok_tf += 1
     chk.verdict(ok_tf >= 4, "R2", "checked-narrowing", b.loc(), "only %d checked narrowings (u32 total, u32 headers, u8 name, u16 value expected): an overlong item would be silently truncated" % ok_tf)
     for e in (ev[0], ev[1], nm_len, v_len):
-        sl = flow.backward(b, e["args"][0], at=e["bi"])
+        sl = flow.backward(e["body"], e["args"][0], at=e["bi"])
         casts = []
         for l in sl.locals:
-            for df in b.defs().get(l, []):
+            for df in e["body"].defs().get(l, []):
                 if df["kind"] == "assign" and df["rv"]["k"] == "cast" and "IntToInt" in df["rv"].get("ck", "") and df["rv"].get("ty") in ("u8", "u16", "u32"):
                     casts.append(b.loc(df["bi"]))
         chk.verdict(not casts, "R2", "no-as-truncation#%d" % e["bi"], casts[0] if casts else b.loc(e["bi"]), "a length is narrowed with `as` (wraps silently) at %s" % casts, nontrivial=False)
@@ -122,7 +134,7 @@ def rule_r1_r2(chk, db):
         if m is None:
             continue
         written = m.group(1)
-        sl = flow.backward(b, e["args"][0], at=e["bi"])
+        sl = flow.backward(e["body"], e["args"][0], at=e["bi"])
         targets = sorted({(t["callee"].get("args") or "").strip("[]").split(",")[0].strip() for _, t, _ in sl.calls
                           if callee_def(t) == "core::convert::TryFrom::try_from"})
         if not targets:
